@@ -622,6 +622,31 @@ def rule_multiout(ctx):
         ctx.ob('C02.count', f'{ci.fq}:creates-outputs', ok,
                f'{ci.name} is a multi-output unit with constructors {ctors} but no _init_ugen that creates its output proxies', ci.node, ci.module)
     ctx.require(n >= 30, 'C02.count', f'only {n} constructible multi-output classes found')
+    # the unit's own output list is what _num_outputs/_write_output_specs read: it is not handed to user code, where a pop()/append()
+    # would change the declared outputs under the consumers' feet
+    ug = repo.cls('sc3.synth.ugen:UGen')
+    n1 = repo.resolve_method(ug, '_new1')
+    rets = [x for x in walk_local(n1.node) if isinstance(x, ast.Return)]
+    direct = [r for r in rets if r.value is not None and any(U.method_name(c) == '_init_ugen' for c in U.calls(r.value))]
+    guarded = False
+    for br in [x for x in walk_local(n1.node) if isinstance(x, ast.If)]:
+        cp = U.compare_parts(br.test)
+        if cp and cp[1] is ast.Is and norm(cp[2]).endswith('._channels') and isinstance(cp[0], ast.Name):
+            v = cp[0].id
+            guarded = any(isinstance(x, ast.Assign) and norm(x.targets[0]) == v and isinstance(x.value, ast.Call) and
+                          norm(x.value.func) in ('ChannelList', 'list', 'type(' + v + ')') for x in br.body) and \
+                any(r.value is not None and norm(r.value) == v for r in rets)
+    ctx.ob('C02.count', f'{n1.fq}:own-output-list-not-handed-out', guarded and not direct,
+           'UGen._new1 must return a copy when _init_ugen returned the unit\'s own _channels list (In.ar(0, 4).pop() otherwise makes the '
+           'unit declare 3 outputs while a consumer reads output 3)', n1.node, n1.module)
+    for ci in sorted(repo.subclasses(mo, strict=True), key=lambda c: c.fq):
+        own = ci.methods.get('_new1')
+        if own is None:
+            continue
+        bad = [r for r in walk_local(own.node) if isinstance(r, ast.Return) and r.value is not None and
+               any(U.method_name(c) == '_init_ugen' for c in U.calls(r.value))]
+        ctx.ob('C02.count', f'{own.fq}:own-output-list-not-handed-out', not bad,
+               'a multi-output class that overrides _new1 must go through UGen._new1 (or copy) instead of returning _init_ugen\'s list', own.node, own.module)
 
 
 def run(ctx):
@@ -641,6 +666,47 @@ def run(ctx):
     ctx.ob('C02.valid', f'{ab.fq}:cached-only-after-success', ok,
            'self._bytes must be assigned on the normal path right after _write_def_list returned (never in a finally/except block): '
            'otherwise a definition that cannot be written raises once and then hands out its truncated prefix', ab.node, ab.module)
+    # writer/reader agreement on what is malformed: every condition under which the reader's final check raises has a raise in the writer
+    rd = ctx.repo.func('sc3.synth.synthdesc:SynthDesc._check_synthdesc2')
+    wr = ctx.repo.func('sc3.synth.synthdef:SynthDef._write_def')
+
+    def raising_tests(fn):
+        out = []
+        for br in [x for x in walk_local(fn.node) if isinstance(x, ast.If)]:
+            node = br
+            while True:
+                if any(isinstance(x, ast.Raise) for x in node.body):
+                    out.append(node.test)
+                if len(node.orelse) == 1 and isinstance(node.orelse[0], ast.If):
+                    node = node.orelse[0]
+                else:
+                    break
+        return out
+    rt, wt = raising_tests(rd), raising_tests(wr)
+    ctx.require(len(rt) >= 2, 'C02.valid', f'reader rejection conditions not bound: {[norm(t) for t in rt]}')
+
+    def kind(t):
+        for c in U.conjuncts(t):
+            cp = U.compare_parts(c)
+            if cp and cp[1] is ast.In and isinstance(cp[2], ast.Name):
+                return ('duplicate', cp[2].id)
+            if cp and cp[1] is ast.Gt and norm(cp[0]).startswith('len(') and isinstance(U.literal(cp[2]), int):
+                return ('count', U.literal(cp[2]))
+        return None
+    wk = [kind(t) for t in wt]
+    for t in rt:
+        k = kind(t)
+        if k is None:
+            ctx.ob('C02.valid', f'{rd.fq}:rejects[{norm(t)}]:writer-refuses', False, f'reader rejection `{norm(t)}` not understood', t, rd.module)
+        elif k[0] == 'duplicate':
+            ok = any(w and w[0] == 'duplicate' for w in wk) and any(
+                U.method_name(c) == 'add' and isinstance(c.func.value, ast.Name) and ('duplicate', c.func.value.id) in wk for c in U.calls(wr.node))
+            ctx.ob('C02.valid', f'{rd.fq}:rejects[duplicated-name]:writer-refuses', ok,
+                   'the reader rejects a definition with a duplicated control name; the writer must refuse to emit one (two SynthDef.wrap of one function)', wr.node, wr.module)
+        else:
+            ok = any(w and w[0] == 'count' and w[1] <= k[1] for w in wk)
+            ctx.ob('C02.valid', f'{rd.fq}:rejects[more-than-{k[1]}-names]:writer-refuses', ok,
+                   f'the reader rejects more than {k[1]} control names; the writer must refuse to emit them', wr.node, wr.module)
     from .. import beliefs
     ctx.rule('C02.desc', 'the description keeps what it read: no value read from the definition is replaced because it is falsy (bus 0)')
     beliefs.rule_ordefault(ctx, 'C02.desc', ['sc3.synth.synthdesc'])
@@ -659,6 +725,13 @@ def run(ctx):
 
 
 MUTANTS = [
+    dict(rule='C02.valid', name='writer emits duplicated control names (fix reverted)', file='sc3/synth/synthdef.py',
+         old="                elif item.name in cnames:\n                    raise Exception(\n                        f\"duplicated control name '{item.name}'\")\n", new=""),
+    dict(rule='C02.valid', name='writer name limit above the reader limit', file='sc3/synth/synthdef.py',
+         old="            if len(allcns_tmp) > 255:", new="            if len(allcns_tmp) > 65535:"),
+    dict(rule='C02.count', name='unit hands out its own output list (fix reverted)', file='sc3/synth/ugen.py',
+         old="        ret = obj._init_ugen(*args)\n        if ret is obj._channels:\n            # The unit's own output list is not handed out.\n            ret = ChannelList(ret)\n        return ret\n",
+         new="        return obj._init_ugen(*args)\n"),
     dict(rule='C02.count', name='(fix reverted) BeatTrack2 without _init_ugen', file='sc3/synth/ugens/machinelistening.py',
          old="            paccuracy, lock, wscheme)\n\n    def _init_ugen(self, *inputs):  # override\n        self._inputs = inputs\n        return self._init_outputs(6, self.rate)\n", new="            paccuracy, lock, wscheme)\n"),
     dict(rule='C02.rgram', name='(fix reverted) reader leaves the variant blocks unread', file='sc3/synth/synthdesc.py',
